@@ -343,7 +343,7 @@ impl<const COLS: usize, const PIS: usize> Stark<F, 2> for DslStark<COLS, PIS> {
 }
 
 /// the (COLS, PIS) instantiations that exist; generated AIRs pick their shape from this list
-pub const SHAPES: &[(usize, usize)] = &[(1, 0), (1, 1), (2, 0), (2, 3), (3, 0), (3, 1), (4, 2), (5, 1), (5, 4), (6, 0), (6, 3), (7, 2), (8, 0), (8, 2)];
+pub const SHAPES: &[(usize, usize)] = &[(1, 0), (1, 1), (2, 0), (2, 3), (3, 0), (3, 1), (4, 2), (5, 1), (5, 4), (6, 0), (6, 3), (7, 2), (8, 0), (8, 2), (13, 0), (14, 2), (26, 0)];
 
 /// run `$body` with `$s` bound to the `DslStark<COLS, PIS>` of the AIR's shape
 macro_rules! with_stark {
@@ -355,6 +355,7 @@ macro_rules! with_stark {
             (3, 0) => arm!(3, 0), (3, 1) => arm!(3, 1), (4, 2) => arm!(4, 2), (5, 1) => arm!(5, 1),
             (5, 4) => arm!(5, 4), (6, 0) => arm!(6, 0), (6, 3) => arm!(6, 3), (7, 2) => arm!(7, 2),
             (8, 0) => arm!(8, 0), (8, 2) => arm!(8, 2),
+            (13, 0) => arm!(13, 0), (14, 2) => arm!(14, 2), (26, 0) => arm!(26, 0),
             s => panic!("no DslStark instantiation for shape {s:?}"),
         }
     }};
